@@ -550,6 +550,6 @@ def coveredAttrClasses : List (String × List String × List String × List (Str
 
 /-- (kind, guards) of the exits of `dtype_to_tensor_type`: `None`, numpy's `ValueError` for a malformed
     spec, `object`, and ONNX's unknown-dtype errors all leave as `TypeError`. -/
-def coveredDtypeExits : List (String × List String) := [("raise", ["dtype_like is None"]), ("raise", ["<except ValueError>"]), ("raise", ["dtype == np.dtype(object)"]), ("return", ["not (dtype == np.dtype(object))", "dtype == np.dtype(str)"]), ("return", ["<try>"]), ("raise", ["<except (KeyError, ValueError)>"])]
+def coveredDtypeExits : List (String × List String) := [("raise", ["v0 is None"]), ("raise", ["<except ValueError>"]), ("raise", ["v2 == np.dtype(object)"]), ("return", ["not (v2 == np.dtype(object))", "v2 == np.dtype(str)"]), ("return", ["<try>"]), ("raise", ["<except (KeyError, ValueError)>"])]
 
 end Conform
